@@ -26,6 +26,9 @@ CHECKS["C09"] = dict(text="Lean theorems over every well-timed history of the op
 CHECKS["C14"] = dict(text="Lean theorems over every well-timed history of the open resolver system (arbitrary sequences of literal / host-name lookups with arbitrary configuration answers and latencies, cancel(), re-entrant calls from inside lookup handlers): every lookup completes exactly once (permutation of requests = completions + queue), results are exactly the configuration's error and addresses in order with the numeric port, host-name lookups complete in request order at a scheduled instant within [nominal, nominal + slack] where nominal = max(request, previous nominal) + latency, literals on schedule without consulting the configuration, cancel() aborts every queued lookup exactly once and none completes afterwards; exact correspondence of the composed kernel+resolver model with real tcp/udp resolvers; statement re-evaluated on implementation traces",
     note=TB + "the '1 microsecond' clauses hold in the form proved (C14_serial_timing / C14_literal_fast): chains of address literals requested within a microsecond of each other add up, on the model and on the implementation alike (C14_literal_chain_corner); recorded in DESIGN.md", ref="§5 C14",
     tech="Lean 4 proof: open-system invariant over resolver histories incl. re-entrancy; model/implementation correspondence")
+CHECKS["C01"] = dict(text="the Lean world model (kernel + queues + sockets + resolver + capture) is a pure function of the scenario with no environment input; theorems state that the kernel has no scheduling choice points (FIFO, expiry-then-arming order), that a new simulation's clock is reset, and that the capture does not depend on allocator contents once the byte counters are initialised (with the pinned tree's dependence as a witness); every generated program is executed by the real library under several perturbed environments (allocator fill 0x00/0xbe/0x55, sanitizer vs -O2 build, tcache off, ASLR off, another simulation run first in the same process) and every complete trace, capture bytes included, must equal the environment-free prediction byte for byte",
+    note=TB + "PARTIAL by nature: Lean proves the identified environment inputs do not reach the model's observables; dependences not identified by reading (inside boost, pointer comparisons in unmodelled paths) can only be exhibited by the perturbed runs, which sample", ref="§5 C01",
+    tech="Lean 4 proof (determinism of the model, non-interference of identified environment inputs) + exact model/implementation correspondence under perturbed environments")
 CHECKS["C10"] = dict(text="Lean theorems: byte account = sum of queued sizes = accepted - forwarded; drop iff droppable and capacity>0 and held+size>capacity (mechanism function and logged flag for every arrival of every history); control packets and capacity 0 never drop; conservation (every arrival forwarded xor dropped xor still queued, FIFO identity); drop callback exactly once, at the drop instant, with the packet intact; correspondence and trace-level statement as C09",
     note=TB + "'intact' covers payload size/type/sequence/overhead (the callback member itself is moved out by design)", ref="§5 C10",
     tech="Lean 4 proof: open-system invariant; model/implementation correspondence")
